@@ -126,7 +126,7 @@ def random_glyph(rng):
 
 
 def random_spelling(rng):
-    n = rng.choice([0, 0, 0, 1, 1, 2, 3, 5, 8])
+    n = rng.choice([0, 0, 0, 1, 1, 2, 3, 5, 8]) if rng.random() < 0.97 else rng.choice([30, 45, 64, 90])
     ds = []
     for _ in range(n):
         d = random_directive(rng)
